@@ -236,6 +236,100 @@ seed("C19.R1.setq-as-add", "C19", "C19.R1:pair:Set", "SetQuiet decoded as AddQui
 seed("C19.R4.error-depends-on-opcode", "C19", "C19.R4:", "quiet opcodes get a different error text length",
      (CODEC, "    response_header.body_length = message.len() as u32;", "    response_header.body_length = if response_header.opcode > 0x10 { 0 } else { message.len() as u32 };"))
 
+
+# ---------------------------------------------------------------- C10
+seed("C10.R1.revert-D6", "C10", "C10.R1:memcache::store::MemcStore::add_delta", "increment with an overflow-checked +",
+     (MEMC, "value = value.wrapping_add(delta.delta);", "value += delta.delta;"))
+seed("C10.R1.revert-D7", "C10", "C10.R1:<memory_store::store::MemoryStore as cache::cache::Cache>::set", "client token + 1 overflow-checked",
+     (STORE, "record.header.cas = record.header.cas.saturating_add(1);", "record.header.cas += 1;"))
+seed("C10.R1.revert-D8", "C10", "C10.R1:protocol::binary_connection::MemcacheBinaryConnection::read_frame", "skip = body_length - buffer.len()",
+     (CONN, "                        let body_length = request.header.body_length as usize;\n                        let buffered = cmp::min(body_length, self.buffer.len());\n                        self.buffer.advance(buffered);\n                        let skip = (body_length - buffered) as u32;", "                        let skip = (request.header.body_length) - (self.buffer.len() as u32);\n                        self.buffer.clear();"))
+seed("C10.R1.unwrap-on-parse", "C10", "C10.R1:memcache::store::MemcStore::add_delta", "stored value parsed with unwrap",
+     (MEMC, "                        value\n                            .parse::<u64>()\n                            .map_err(|_err| CacheError::ArithOnNonNumeric)", "                        Ok::<u64, CacheError>(value.parse::<u64>().unwrap())"))
+seed("C10.R1.no-validation-in-get", "C10", "C10.R", "parse_get_request does not validate the lengths",
+     (CODEC, "    fn parse_get_request(&self, src: &mut BytesMut) -> Result<Option<BinaryRequest>, io::Error> {\n        if !self.request_valid(src, true) {\n            return Err(Error::new(ErrorKind::InvalidData, \"Incorrect get request\"));\n        }\n", "    fn parse_get_request(&self, src: &mut BytesMut) -> Result<Option<BinaryRequest>, io::Error> {\n"))
+seed("C10.R2.key-251", "C10", "C10.R2:request_valid", "key of 251 bytes accepted",
+     (CODEC, "        if self.header.key_length > 250 {", "        if self.header.key_length > 251 {"))
+seed("C10.R2.key-250-rejected", "C10", "C10.R2:request_valid", "key of 250 bytes rejected",
+     (CODEC, "        if self.header.key_length > 250 {", "        if self.header.key_length >= 250 {"))
+seed("C10.R2.opcode-max-accepted", "C10", "C10.R2:header_valid", "opcode 0x25 passes header_valid",
+     (CODEC, "        if self.header.opcode >= binary::Command::OpCodeMax as u8 {", "        if self.header.opcode > binary::Command::OpCodeMax as u8 {"))
+seed("C10.R2.data-type-ignored", "C10", "C10.R2:header_valid", "data type not checked",
+     (CODEC, "        if self.header.data_type != binary::DataTypes::RawBytes as u8 {", "        if false && self.header.data_type != binary::DataTypes::RawBytes as u8 {"))
+seed("C10.R3.delete-key-optional", "C10", "C10.R3:op0x04:missing-key", "delete without a key accepted",
+     (CODEC, "    fn parse_delete_request(&self, src: &mut BytesMut) -> Result<Option<BinaryRequest>, io::Error> {\n        if !self.request_valid(src, true) {", "    fn parse_delete_request(&self, src: &mut BytesMut) -> Result<Option<BinaryRequest>, io::Error> {\n        if !self.request_valid(src, false) {"))
+seed("C10.R4.busy-loop", "C10", "C10.R4:loop-free", "a non-iterator loop in the decoder",
+     (CODEC, "    fn get_value_len(&self) -> usize {", "    fn spin(&self) -> u32 {\n        let mut n = self.header.opaque;\n        while n % 7 != 0 {\n            n = n.wrapping_mul(3).wrapping_add(1);\n        }\n        n\n    }\n\n    fn get_value_len(&self) -> usize {\n        let _ = self.spin();"))
+seed("C10.R5.reserve-unbounded", "C10", "C10.R5:parse_header:reserve", "buffer reserved for any announced length",
+     (CODEC, "        if self.header.body_length > self.item_size_limit {\n            return Ok(());\n        }\n\n        src.reserve", "        src.reserve"))
+# ---------------------------------------------------------------- C14
+seed("C14.R1.store-before-account", "C14", "C14.R1:set:account-then-store", "inner set before the accounting/sweep",
+     (POLICY, "        let len = record.len() as u64;\n        self.incr_mem_usage(len);\n        self.store.set(key, record)", "        let len = record.len() as u64;\n        let result = self.store.set(key, record);\n        self.incr_mem_usage(len);\n        result"))
+seed("C14.R1.accounts-zero", "C14", "C14.R1:set:accounts-record-size", "accounts 0 bytes per store",
+     (POLICY, "        self.incr_mem_usage(len);\n        self.store.set(key, record)", "        self.incr_mem_usage(0);\n        let _ = len;\n        self.store.set(key, record)"))
+seed("C14.R2.no-empty-exit", "C14", "C14.R2:", "victim drawn from a possibly empty store",
+     (POLICY, "            if max == 0 {\n                self.decr_mem_usage(usage);\n                break;\n            }\n", ""))
+seed("C14.R2.ge-limit", "C14", "C14.R2:", "sweep entered only far above the limit",
+     (POLICY, "        while usage > self.memory_limit {", "        while usage > self.memory_limit && usage == 0 {"))
+seed("C14.R3.subtract-constant", "C14", "C14.R3:", "delete subtracts a constant",
+     (POLICY, "            self.decr_mem_usage(record.len() as u64);", "            let _ = record;\n            self.decr_mem_usage(4096);"))
+seed("C14.R4.random-ignored", "C14", "C14.R4:from_config[Random]", "policy random builds the plain store",
+     (BUILDER, "            EvictionPolicy::Random => {\n                Arc::new(RandomPolicy::new(store_engine, config.memory_limit))\n            }", "            EvictionPolicy::Random => store_engine,"))
+seed("C14.R4.limit-not-plumbed", "C14", "C14.R4:", "policy built with a fixed limit",
+     (BUILDER, "Arc::new(RandomPolicy::new(store_engine, config.memory_limit))", "Arc::new(RandomPolicy::new(store_engine, 64 * 1024 * 1024))"))
+# ---------------------------------------------------------------- C15
+seed("C15.R1.delete-unaccounted", "C15", "C15.R1:delete:delete", "policy delete does not subtract",
+     (POLICY, "        if let Ok(record) = &result {\n            self.decr_mem_usage(record.len() as u64);\n        }\n", ""))
+seed("C15.R1.remove-subtracts-zero", "C15", "C15.R1:remove:remove", "policy remove subtracts 0",
+     (POLICY, "            self.decr_mem_usage(key_value.1.len() as u64);", "            let _ = key_value;\n            self.decr_mem_usage(0);"))
+seed("C15.R1.sweep-unaccounted", "C15", "C15.R1:incr_mem_usage:remove_if", "sweep does not subtract evicted records",
+     (POLICY, "                    usage = self.decr_mem_usage(len as u64);", "                    usage = usage.saturating_sub(len as u64);"))
+# ---------------------------------------------------------------- C17
+seed("C17.R1.permit-not-forgotten", "C17", "C17.R", "permit dropped at once instead of kept",
+     (TCP, "self.limit_connections.acquire().await.unwrap().forget();", "drop(self.limit_connections.acquire().await.unwrap());"))
+seed("C17.R1.acquire-after-spawn", "C17", "C17.R1:order", "task spawned before a permit is taken",
+     (TCP, "                            self.limit_connections.acquire().await.unwrap().forget();\n", ""),
+     (TCP, "                            tokio::spawn(async move { client.handle().await });", "                            tokio::spawn(async move { client.handle().await });\n                            self.limit_connections.acquire().await.unwrap().forget();"))
+seed("C17.R2.no-add-permits", "C17", "C17.R2:drop", "Client::drop does not return the permit",
+     (CLIENT, "        self.limit_connections.add_permits(1);", "        let _ = &self.limit_connections;"))
+seed("C17.R2.two-permits", "C17", "C17.R2:drop", "Client::drop returns two permits",
+     (CLIENT, "        self.limit_connections.add_permits(1);", "        self.limit_connections.add_permits(2);"))
+seed("C17.R3.early-continue", "C17", "C17.R3:", "connection dropped between Client::new and forget",
+     (TCP, "                            self.limit_connections.acquire().await.unwrap().forget();", "                            if peer_addr.port() == 0 {\n                                continue;\n                            }\n                            self.limit_connections.acquire().await.unwrap().forget();"))
+seed("C17.R4.sized-by-backlog", "C17", "C17.R4:Semaphore::new", "semaphore sized by the listen backlog",
+     (TCP, "Semaphore::new(config.connection_limit as usize)", "Semaphore::new(config.listen_backlog as usize)"))
+seed("C17.R4.revert-D13", "C17", "C17.R4:once", "one server (semaphore) per listener thread",
+     (RB, "    let tcp_server = memcache_server::memc_tcp::MemcacheTcpServer::new(memc_config, store);\n    for i in 0..config.threads {\n        let mut tcp_server = tcp_server.clone();", "    for i in 0..config.threads {\n        let store_rc = Arc::clone(&store);"),
+     (RB, "            let mut create_runtime = || {\n                let child_runtime = create_current_thread_runtime();", "            let create_runtime = || {\n                let child_runtime = create_current_thread_runtime();\n                let mut tcp_server =\n                    memcache_server::memc_tcp::MemcacheTcpServer::new(memc_config, store_rc);"))
+# ---------------------------------------------------------------- C18
+seed("C18.R1.err-continues", "C18", "C18.R1:handle_frame[Err]", "a failed read does not end the connection",
+     (CLIENT, "                error!(\"Error when reading frame; error = {:?}\", err);\n                true", "                error!(\"Error when reading frame; error = {:?}\", err);\n                false"))
+seed("C18.R1.none-continues", "C18", "C18.R1:handle_frame[Ok(None)]", "end of stream does not end the connection",
+     (CLIENT, "                        debug!(\"Connection closed: {}\", self.addr);\n                        true", "                        debug!(\"Connection closed: {}\", self.addr);\n                        false"))
+seed("C18.R2.eof-residue-clean", "C18", "C18.R2:eof[residue]", "EOF with a partial request is a clean end",
+     (CONN, "                if self.buffer.is_empty() {\n                    return Ok(None);\n                } else {\n                    return Err(Error::new(\n                        ErrorKind::ConnectionReset,\n                        \"Connection reset by peer\",\n                    ));\n                }\n            }\n        }\n    }\n\n    pub async fn skip_bytes", "                return Ok(None);\n            }\n        }\n    }\n\n    pub async fn skip_bytes"))
+seed("C18.R2.decode-error-swallowed", "C18", "C18.R2:decode-error-propagates", "decode errors are ignored and reading continues",
+     (CONN, "            if let Some(frame) = self.codec.decode(&mut self.buffer)? {", "            if let Some(frame) = self.codec.decode(&mut self.buffer).unwrap_or(None) {"))
+seed("C18.R4.exit-on-error", "C18", "C18.R4:no-exit", "read errors terminate the process",
+     (CLIENT, "                error!(\"Error when reading frame; error = {:?}\", err);\n                true", "                error!(\"Error when reading frame; error = {:?}\", err);\n                if err.kind() == io::ErrorKind::OutOfMemory {\n                    std::process::exit(3);\n                }\n                true"))
+# ---------------------------------------------------------------- C20
+seed("C20.R1.threadpool-arg-swap", "C20", "C20.R1:create_threadpool_server", "connection limit and backlog swapped in one builder",
+     (RB, "        60,\n        config.connection_limit,\n        config.item_size_limit.as_u64() as u32,\n        config.backlog_limit,\n    );\n    let runtime = create_multi_thread_runtime", "        60,\n        config.backlog_limit,\n        config.item_size_limit.as_u64() as u32,\n        config.connection_limit,\n    );\n    let runtime = create_multi_thread_runtime"))
+seed("C20.R1.timeout-differs", "C20", "C20.R1:create_threadpool_server:timeout", "different idle timeout in one runtime mode",
+     (RB, "        60,\n        config.connection_limit,\n        config.item_size_limit.as_u64() as u32,\n        config.backlog_limit,\n    );\n    let runtime = create_multi_thread_runtime", "        6,\n        config.connection_limit,\n        config.item_size_limit.as_u64() as u32,\n        config.backlog_limit,\n    );\n    let runtime = create_multi_thread_runtime"))
+seed("C20.R2.store-per-builder", "C20", "C20.R2:", "multi-thread builder creates its own store",
+     (RB, "    let store_rc = Arc::clone(&store);\n    let mut tcp_server = memcache_server::memc_tcp::MemcacheTcpServer::new(memc_config, store_rc);", "    let _ = &store;\n    let store_rc: Arc<dyn Cache + Send + Sync> = Arc::new(crate::memory_store::store::MemoryStore::new(Arc::new(server::timer::SystemTimer::new())));\n    let mut tcp_server = memcache_server::memc_tcp::MemcacheTcpServer::new(memc_config, store_rc);"))
+seed("C20.R3.random-means-none", "C20", "C20.R3:eviction-policy", "'random' parsed as none",
+     (PARSER, "        \"random\" => Ok(EvictionPolicy::Random),", "        \"random\" => Ok(EvictionPolicy::None),"))
+seed("C20.R3.runtime-swapped", "C20", "C20.R3:runtime", "runtime types start the wrong builder",
+     (RB, "        RuntimeType::CurrentThread => create_current_thread_server(config, memcache_store),\n        RuntimeType::MultiThread => create_threadpool_server(config, memcache_store),", "        RuntimeType::CurrentThread => create_threadpool_server(config, memcache_store),\n        RuntimeType::MultiThread => create_current_thread_server(config, memcache_store),"))
+seed("C20.R4.two-second-tick", "C20", "C20.R4:timer:1s-interval", "clock ticks every 2 s",
+     (TIMER, "Duration::from_secs(1)", "Duration::from_secs(2)"))
+seed("C20.R4.store-gets-other-timer", "C20", "C20.R4:main", "store reads a timer nobody drives",
+     (MAIN, "        cli_config,\n        system_timer.clone(),", "        cli_config,\n        Arc::new(memcrs::server::timer::SystemTimer::new()),"))
+seed("C20.R4.tick-adds-nothing", "C20", "C20.R4:timer:add_second", "add_second adds 0",
+     (TIMER, "        self.seconds.fetch_add(1, Ordering::Release);", "        self.seconds.fetch_add(0, Ordering::Release);"))
+
 # ---------------------------------------------------------------- neutral variants
 neutral("N.rename-local", "rename a local in MemoryStore::set",
         (STORE, "            let cas = self.get_cas_id();\n            record.header.cas = cas;", "            let fresh = self.get_cas_id();\n            let cas = fresh;\n            record.header.cas = cas;"))
